@@ -27,7 +27,7 @@ RULE = (
     "distinct (configuration, schedule log) digests; non-trivial = parallel run in which >= 2 workers executed tasks, or a serial run after a non-empty history"
 )
 LEVEL_TEXT = (
-    "Seeded search over worker-pool schedules and parent histories: the pool is simulated in-process (task granularity is the complete interleaving space because workers share nothing), each worker context carries the process-global state a real child would own (re-seeded stdlib random, inherited or fresh NumPy state, stale or missing module-global worker config, growing identity counter); every returned item is judged on its raw arrays by a BFS/degree model. Also varied: dataset sizes across the library's size threshold, endpoint sets given as int8 coordinate arrays, long parent histories, the cached config-driven entry point called twice on one configuration object, and one interpreter slot in three running under python -O. Sampling, not proof.",
+    "Seeded search over worker-pool schedules and parent histories: the pool is simulated in-process (task granularity is the complete interleaving space because workers share nothing), each worker context carries the process-global state a real child would own (re-seeded stdlib random, inherited or fresh NumPy state, stale or missing module-global worker config, growing identity counter); every returned item is judged on its raw arrays by a BFS/degree model. Also varied: dataset sizes across the library's size threshold, endpoint sets given as int8 coordinate arrays, small trees grown in the far corner of 129-300-cell-wide grids (coordinates beyond one byte), long parent histories, the cached config-driven entry point called twice on one configuration object, and one interpreter slot in three running under python -O. Sampling, not proof.",
     "Trusted: the SimPool model of multiprocessing.Pool/imap/initializer/maxtasksperchild semantics and of CPython's fork-time re-seeding of `random` (thorough tier cross-checks SimPool streams against real pools).",
 )
 
